@@ -133,26 +133,33 @@ def u_ann(c):
         c.prove("other-string/unchanged", r is node)
 
 
-@unit("should_instrument", ["C11", "C01"], [TR + ":PteraTransformer.should_instrument", S + ":check_element", TG + ":match_tag"])
+@unit("should_instrument", ["C11", "C01", "C16"], [TR + ":PteraTransformer.should_instrument", S + ":check_element", TG + ":match_tag"])
 def u_should_instrument(c):
     """should_instrument(name, ann) <=> some element of the capture set matches (name, evaluated annotation): exactly the
     bindings an active selector can select are instrumented (so it is a superset of the delivery filter of interact)."""
     it = Interp(c)
     tags = _tags(it)
     cat, members, kind = _mk_category_small(it, c, tags)
-    it.policies[TR + ":PteraTransformer._evaluate"] = lambda it_, f, a, k: cat
+    cat2, members2, kind2 = _mk_category_small(it, c, tags)
+    n1, n2 = ast.Name(id="ann1", ctx=ast.Load()), ast.Name(id="ann2", ctx=ast.Load())
+    it.policies[TR + ":PteraTransformer._evaluate"] = lambda it_, f, a, k: cat if a[1] is n1 else cat2
     els = []
-    want = False
+    want = want2 = False
     for i in range(c.choose(3)):
         elname = [None, "x", "y"][c.choose(3)]
         tk = c.choose(4)
         T = None if tk == 3 else tags[ALPHA[tk]]
         els.append(mk_obj(it, S, "Element", name=elname, value=it.models.absent(it), category=T, capture=f"c{i}", tags=frozenset()))
         want = want or ((elname is None or elname == "x") and (T is None or ALPHA[tk] in members))
+        want2 = want2 or ((elname is None or elname == "x") and (T is None or ALPHA[tk] in members2))
     tr = mk_obj(it, TR, "PteraTransformer", to_instrument=els)
-    st, r = run(it, it.getattr(tr, "should_instrument"), ["x", ast.Name(id="ann", ctx=ast.Load())])
+    st, r = run(it, it.getattr(tr, "should_instrument"), ["x", n1])
     c.prove("no-raise", st == "ok")
     c.prove("iff-some-capture-matches", st == "ok" and it.truth(r) == want)
+    # the decision is per BINDING (name, annotation of that binding), not per name: a second binding of the same
+    # variable with another annotation is decided on its own
+    st, r2 = run(it, it.getattr(tr, "should_instrument"), ["x", n2])
+    c.prove("second-binding-of-the-same-name-decided-on-its-own-annotation", st == "ok" and it.truth(r2) == want2, only=["C11", "C16", "C01"])
 
 
 @unit("C11.lemma", ["C11"], [])
